@@ -2064,6 +2064,11 @@ func (app *App) findBestStreamFrom(node *mysql.Node, clusterState map[string]*no
 			}
 		}
 
+		if candidateState == nil {
+			app.logger.Error().Msgf("repair: stream_from source %s of %s is not a registered host. Fallback to master.", streamFrom, host)
+			return master
+		}
+
 		hasReasonableLag := candidateState.IsMaster || (candidateState.SlaveState != nil &&
 			candidateState.SlaveState.ReplicationState == mysql.ReplicationRunning &&
 			candidateState.SlaveState.ReplicationLag != nil &&
